@@ -436,7 +436,7 @@ func (g *gen) mspec() mspec {
 // pair produces (x, y): y is x's ancestor mutated in 0-3 places (x itself mutated in 0-1 places),
 // or one of the top-level corner cases.
 func (g *gen) pair() (x, y proto.Message, label string) {
-	mt := ancestorTypes[g.r.Intn(len(ancestorTypes))]
+	mt := equatorTypes[g.r.Intn(len(equatorTypes))]
 	anc := g.newMessage(mt, 3)
 	x = cloneExact(anc)
 	y = cloneExact(anc)
@@ -464,7 +464,7 @@ func (g *gen) pair() (x, y proto.Message, label string) {
 	case 6:
 		return mt.Zero().Interface(), mt.New().Interface(), "typednil,empty"
 	case 7:
-		o := g.newMessage(ancestorTypes[g.r.Intn(len(ancestorTypes))], 2)
+		o := g.newMessage(equatorTypes[g.r.Intn(len(equatorTypes))], 2)
 		return x, o, "other-ancestor"
 	case 8:
 		return mt.New().Interface(), (&testproto.ForeignMessage{}).ProtoReflect().New().Interface(), "empty,empty-other-type"
